@@ -458,3 +458,66 @@ def r11_3_emission(ctx: Ctx, rule: str = "R11.3") -> None:
         run.ok(rule, "convert_sort_term:ascending")
     else:
         run.fail(rule, "convert_sort_term:ascending", "convert_sort_term does not translate term.expression ascending / .desc() according to term.ascending", fi=cst)
+
+
+def r_sort_mapping(ctx: Ctx, rule: str) -> None:
+    """ORDER BY terms are converted against every column of the Select's skip target, not only the projected ones."""
+    run, m = ctx.run, ctx.m
+    run.rule(
+        rule,
+        "ORDER BY terms are converted with the mapping of ALL columns available below the Select (the payload's "
+        "columns_available on the plain branch, the skip target's columns extracted from the compound on the union "
+        "branch): the sort slot is applied before the projection slot, so a term may use a column the SELECT list drops",
+        expected_min=2,
+    )
+    f = m.func(SQL_ENGINE, "Engine._select_to_executable")
+    sel = [p for p in f.params if p != "self"][0]
+    seen = 0
+    reported: set[str] = set()
+    for i, p in enumerate(ctx.paths(f)):
+        if p.outcome != "return":
+            continue
+        for j, c in path_calls(p):
+            if call_attr(c) != "convert_sort_term" or len(c.args) < 2:
+                continue
+            seen += 1
+            compound = any(s.kind == "case" and s.value and "Chain" in src(s.node.pattern) for s in p.steps)  # type: ignore[union-attr]
+            a = c.args[1]
+            b = resolve_name(p, a.id, j) if isinstance(a, ast.Name) else a
+            while isinstance(b, ast.Name):
+                nb = resolve_name(p, b.id, j)
+                if nb is None or (isinstance(nb, ast.Name) and nb.id == b.id):
+                    break
+                b = nb
+            ok = False
+            what = src(b) if isinstance(b, ast.AST) else repr(b)
+            if isinstance(b, ast.Attribute) and b.attr == "columns_available":
+                pv = b.value
+                pb = resolve_name(p, pv.id, j) if isinstance(pv, ast.Name) else pv
+                from ..flow import denotes
+
+                ok = not compound and (
+                    (isinstance(pb, ast.AST) and not isinstance(pb, ast.Call) and denotes(p, pb, sel, ("skip_to", "payload"), j))
+                    or (isinstance(pb, ast.Call) and call_attr(pb) == "to_payload" and bool(pb.args) and denotes(p, pb.args[0], sel, ("skip_to",), j))
+                )
+            elif isinstance(b, ast.Call) and call_attr(b) == "extract_mapping" and len(b.args) >= 2:
+                from ..flow import denotes
+
+                ok = denotes(p, b.args[0], sel, ("skip_to", "columns"), j)
+            branch = "compound" if compound else "plain"
+            inst = f"{branch}:sort-mapping"
+            if ok:
+                run.ok(rule, inst, {"mapping": what[:80]})
+            elif inst not in reported:
+                reported.add(inst)
+                run.fail(
+                    rule,
+                    inst,
+                    f"sort terms are converted against `{what[:80]}`, which is not the full column mapping of {sel}.skip_to: a Select that sorts on a "
+                    "column its projection drops is accepted by the factories but fails with a missing-column lookup at conversion",
+                    fi=f,
+                    node=c,
+                    details=describe(p, 14),
+                )
+    if seen == 0:
+        raise AnalysisError("_select_to_executable never converts a sort term")
